@@ -267,6 +267,11 @@ CHECKS = {
     note='eof_action(reset) accepts both readings (end-of-file again, or restart at the beginning as implemented); whether read_term/3 '
          'consumes the layout character after the end token is left open; only file streams are driven (the library offers no '
          'in-memory stream constructor at the Prolog level).'),
+ 'C48': dict(
+    level='exploration',
+    technique='runtime monitoring: history monitor with a shadow directory tree; after every call the real tree (os.walk: names, kinds, contents) is compared with the shadow; external changes by the harness',
+    text="Histories of 10-40 library(files) calls (queries, creation, deletion, rename, copy, canonicalisation, path_segments in both directions, files written through open/3) run in a scratch directory over ASCII and Unicode names, interleaved with files and directories created or removed by the harness behind the machine's back; every outcome is compared with the shadow tree, documented existence errors are required for missing objects, ill-typed or unbound paths must raise, and after every call the real tree must equal the shadow (so a refused operation must leave the tree unchanged).",
+    note='Operations the operating system refuses may fail or raise (the documentation does not say which). Symbolic links and working_directory/2 are not driven.'),
 }
 
 NOT_APPLICABLE_REASON_UNBUILT = ('check designed in DESIGN.md but not built/validated yet in this session; '
